@@ -22,6 +22,10 @@ union U
     u2 String
     us S
 
+union U2 extends U
+    x1
+    x2 Int32
+
 union_closed UC
     c1
     c2 Int64
@@ -41,6 +45,7 @@ struct Holder
     b Base
     m Map(String, S)?
     uc UC?
+    ux U2?
 
 route r(Holder, Void, Void)
 '''}
@@ -70,6 +75,12 @@ union U
     u3 Leaf
     u4
 
+union U2 extends U
+    x1
+    x2 Int32
+    x3 String
+    x4
+
 union_closed UC
     c1
     c2 Int64
@@ -93,6 +104,7 @@ struct Holder
     b Base
     m Map(String, S)?
     uc UC?
+    ux U2?
     h_new Boolean = false
 
 route r(Holder, Void, Void)
@@ -100,7 +112,10 @@ route r(Holder, Void, Void)
 route r_new(S, U, Void)
 '''}
 
-TYPES = ['Holder', 'S', 'U', 'Base', 'Leaf']
+TYPES = ['Holder', 'S', 'U', 'U2', 'Base', 'Leaf']
+# the open unions of the spec text above (`union`, not `union_closed`): a reader that does not know a tag reads
+# the documented catch-all `other` -- taken from the spec text, not from the generated class
+OPEN_UNIONS = {'U', 'U2'}
 
 
 def mods():
@@ -164,7 +179,7 @@ def project(t, j, unknown):
         tm = t.definition._tagmap
         if tag not in tm:
             unknown.append('tag %r' % (tag,))
-            return {'.tag': t.definition._catch_all}
+            return {'.tag': 'other' if t.definition.__name__ in OPEN_UNIONS else None}
         tv = tm[tag]
         if isinstance(tv, bv.Void):
             if any(k != '.tag' for k in j):
